@@ -63,8 +63,12 @@ func gen(c *hmain.Ctx) {
 		return hx.L(p...)
 	}
 	// 1. exhaustive small scope: retry in -1..3 x consecutive failures 0..retry+3 x dead queue on/off, one batch
-	for retry := -1; retry <= 3; retry++ {
-		for fails := 0; fails <= retry+3 && fails <= 6; fails++ {
+	for _, retry := range []int{-1000000, -7, -3, -2, -1, 0, 1, 2, 3} {
+		maxFails := retry + 3
+		if retry < 0 {
+			maxFails = 4 // a negative count means "retry without limit": any number of failures must be survived
+		}
+		for fails := 0; fails <= maxFails && fails <= 6; fails++ {
 			for _, dq := range []bool{false, true} {
 				nextID = 0
 				add("exhaustive-one-batch", hx.L(cfgSx(1, 2, 20, retry, dq, 1, 2), hx.L(mkAdder(2, false)), hx.L(hx.L(hx.I(0), hx.I(fails))), hx.L(hx.I(0), hx.I(0))))
@@ -74,7 +78,7 @@ func gen(c *hmain.Ctx) {
 	// 2. random: several batches, workers 1..3, failure plans around the retry count, dead queue on/off
 	for i := 0; i < 90*c.Scale; i++ {
 		nextID = 0
-		retry := r.Range(-1, 3)
+		retry := r.Range(-4, 3)
 		dq := r.Bool()
 		na := r.Range(1, 3)
 		var adders []hx.Sx
@@ -114,6 +118,6 @@ func runJobs(c *hmain.Ctx, jobs []*job) {
 
 func main() {
 	hmain.Run(&hmain.Prop{ID: "C09",
-		Rule: "each case = (retriable batcher config incl. AttemptNum and dead queue, Add scripts, per-batch failure plan) run on the real RetriableBatcher + Router.Fail + dead-queue Batcher; observable = label trace of both batchers. Exhaustive stream: retry -1..3 x 0..retry+3 consecutive failures x dead queue on/off. Every case is non-trivial; distinct = distinct case text.",
-		Gen: gen, Exec: exec})
+		Rule: "each case = (retriable batcher config incl. AttemptNum and dead queue, Add scripts, per-batch failure plan) run on the real RetriableBatcher + Router.Fail + dead-queue Batcher; observable = label trace of both batchers. Exhaustive stream: retry in {-1000000,-7,-3,-2,-1,0,1,2,3} x consecutive failures 0..retry+3 (0..4 for negative counts) x dead queue on/off. Every case is non-trivial; distinct = distinct case text.",
+		Gen:  gen, Exec: exec})
 }
